@@ -13,6 +13,35 @@ REAL_NAMES = {"A": "Order received", "B": "svc.payment/charge",
               "C": "GET /api/v1/items", "D": "db-write_2", "E": "x",
               "F": "Step 10", "G": "notify (email)", "H": "a:b"}
 
+# unusual but legitimate event type names (wave 13): names that are prefixes
+# of one another or differ only in case / blanks, names that resemble words
+# the tool or the dialect uses itself, digits, non-ASCII, punctuation, long
+# names.  (Names of the exact internal forms LOOP_<n>, DUMMY_BREAK,
+# |||START||| are not used: the property calls them placeholders.)
+NAME_MAPS = {
+    "real": REAL_NAMES,
+    "prefix": {"A": "A", "B": "AA", "C": "A A", "D": "AAA", "E": "A_A",
+               "F": "a", "G": "Aa", "H": "A.A"},
+    "internal": {"A": "START", "B": "END", "C": "LOOP", "D": "BREAK",
+                 "E": "DUMMY", "F": "LOOPBACK", "G": "XOR", "H": "tau"},
+    "internal2": {"A": "EVENT_LOOP_1", "B": "AND", "C": "OR", "D": "START_LOOP",
+                  "E": "KILL", "F": "PATH", "G": "END LOOP", "H": "None"},
+    "digits": {"A": "1", "B": "2", "C": "10", "D": "01", "E": "1.0",
+               "F": "-1", "G": "0", "H": "1e3"},
+    "unicode": {"A": "Zahlung best\u00e4tigt", "B": "\u652f\u4ed8",
+                "C": "na\u00efve caf\u00e9", "D": "\u03a9",
+                "E": "go \U0001f680", "F": "a b", "G": "\u00e9",
+                "H": "e\u0301"},
+    "punct": {"A": "a (b)", "B": "[x]", "C": "{y}", "D": "a|b", "E": "a\"b",
+              "F": "'q'", "G": "<<s>>", "H": "#tag"},
+    "keywords": {"A": "end fork", "B": "fork again", "C": "end split",
+                 "D": "endswitch", "E": "repeat while", "F": "detach",
+                 "G": "case", "H": "switch"},
+    "long": {k: k * 120 for k in "ABCDEFGH"},
+}
+PUML_NAMES = {"real": "Users Service", "punct": "shop.checkout v2",
+              "unicode": "Auftr\u00e4ge", "digits": "42"}
+
 
 def build(tier, ctx):
     n = 5 if tier == "quick" else 7
@@ -31,11 +60,16 @@ def build(tier, ctx):
             tasks.append({"name": nm, "defn": dsl.to_list(d), "k": 2,
                           "pres": ["canonical"], "mode": "c05", "seed": hs})
     # the same small definitions under realistic event names
-    for nm, d in pvcommon.scope_defs(ctx["repo"], 4 if tier == "quick" else 5,
-                                     with_corpus=False):
-        tasks.append({"name": nm, "defn": dsl.to_list(d), "k": 2,
-                      "pres": ["canonical"], "mode": "c05",
-                      "names": REAL_NAMES})
+    for mp, names in NAME_MAPS.items():
+        for nm, d in pvcommon.scope_defs(ctx["repo"],
+                                         4 if tier == "quick" else 5,
+                                         with_corpus=False):
+            t = {"name": nm, "defn": dsl.to_list(d), "k": 2,
+                 "pres": ["canonical"], "mode": "c05", "names": names,
+                 "names_map": mp}
+            if mp in PUML_NAMES:
+                t["puml"] = PUML_NAMES[mp]
+            tasks.append(t)
     return tasks
 
 
